@@ -317,28 +317,40 @@ class Ref:
         T, ns, nc = Q.shape[0], A.shape[-1], B.shape[-1]
         self.T, self.ns, self.nc = T, ns, nc
         self.A, self.B, self.c, self.Q, self.p, self.x0 = A, B, c, Q, p, x0
-        # x_t = G[t] u + xf[t],  t = 0..T
-        G = np.zeros((T + 1, ns, T * nc))
-        xf = np.zeros((T + 1, ns))
+        # x_t = G[t] u + xf[t],  t = 0..T   (formed in extended precision: the condensed problem squares the growth of the
+        # roll-out, a float64 H, g would be less accurate than the tolerance on the most ill-conditioned problems)
+        LD = np.longdouble
+        Al, Bl, cl, Ql, pl = A.astype(LD), B.astype(LD), c.astype(LD), Q.astype(LD), p.astype(LD)
+        G = np.zeros((T + 1, ns, T * nc), dtype=LD)
+        xf = np.zeros((T + 1, ns), dtype=LD)
         xf[0] = x0
         for t in range(T):
-            G[t + 1] = A[t] @ G[t]
-            G[t + 1][:, t * nc:(t + 1) * nc] += B[t]
-            xf[t + 1] = A[t] @ xf[t] + c[t]
-        self.G, self.xf = G, xf
-        H = np.zeros((T * nc, T * nc))
-        g = np.zeros(T * nc)
+            G[t + 1] = Al[t] @ G[t]
+            G[t + 1][:, t * nc:(t + 1) * nc] += Bl[t]
+            xf[t + 1] = Al[t] @ xf[t] + cl[t]
+        H = np.zeros((T * nc, T * nc), dtype=LD)
+        g = np.zeros(T * nc, dtype=LD)
         for t in range(T):
-            Qxx, Qxu, Qux, Quu = Q[t][:ns, :ns], Q[t][:ns, ns:], Q[t][ns:, :ns], Q[t][ns:, ns:]
+            Qxx, Qxu, Qux, Quu = Ql[t][:ns, :ns], Ql[t][:ns, ns:], Ql[t][ns:, :ns], Ql[t][ns:, ns:]
             sl = slice(t * nc, (t + 1) * nc)
             H += G[t].T @ Qxx @ G[t]
             H[:, sl] += G[t].T @ Qxu
             H[sl, :] += Qux @ G[t]
             H[sl, sl] += Quu
-            g += G[t].T @ (Qxx @ xf[t] + p[t][:ns])
-            g[sl] += Qux @ xf[t] + p[t][ns:]
-        self.H, self.g = (H + H.T) / 2, g
-        self.u = np.linalg.solve(self.H, -g).reshape(T, nc)
+            g += G[t].T @ (Qxx @ xf[t] + pl[t][:ns])
+            g[sl] += Qux @ xf[t] + pl[t][ns:]
+        Hl = (H + H.T) / 2
+        self.G, self.xf = G.astype(np.float64), xf.astype(np.float64)
+        self.H, self.g = Hl.astype(np.float64), g.astype(np.float64)
+        # float64 solve + iterative refinement with extended-precision residuals
+        u = np.linalg.solve(self.H, -self.g)
+        for _ in range(4):
+            r = -(Hl @ u.astype(LD) + g)
+            du = np.linalg.solve(self.H, r.astype(np.float64))
+            u = (u.astype(LD) + du.astype(LD)).astype(np.float64)
+            if np.abs(du).max() <= 1e-17 * (np.abs(u).max() + 1e-300):
+                break
+        self.u = u.reshape(T, nc)
         self.x = self.rollout(self.u)
         self.J, self.Jabs = self.cost(self.x, self.u)
         self.Hinv_abs = np.abs(np.linalg.inv(self.H))
@@ -374,11 +386,12 @@ class Ref:
         return eps * eps * S, eps * eps * float(np.abs(self.Q).max() * S * S + np.abs(self.p).max() * S)
 
     def rollout(self, u):
-        x = np.zeros((self.T + 1, self.ns))
+        LD = np.longdouble
+        x = np.zeros((self.T + 1, self.ns), dtype=LD)
         x[0] = self.x0
         for t in range(self.T):
-            x[t + 1] = self.A[t] @ x[t] + self.B[t] @ u[t] + self.c[t]
-        return x
+            x[t + 1] = self.A[t].astype(LD) @ x[t] + self.B[t].astype(LD) @ u[t].astype(LD) + self.c[t]
+        return x.astype(np.float64)
 
     def cost(self, x, u):
         J = Ja = 0.0
